@@ -122,6 +122,7 @@ QUICK = [
     ['P1', 'S1+ T1+', 'A1+'],
     ['P1', 'P1 S1+', 'PURGE'],
     ['P1 A1+', 'P1 S1+ T1+'],
+    ['P1', 'S1+ P1', 'PURGE'],
 ]
 THOROUGH = [
     ['P1', 'P1', 'P1', 'PURGE'],
